@@ -147,6 +147,7 @@ def C05(prog: Program, run: Run, tier: str) -> None:
     run.add(api.rule_api(prog, {"cog._tifffile", "cog._mpu", "cog._mpu_fs", "cog._shared", "cog._s3"} if tier == "quick" else None), "R-API the writer's imports and attribute references resolve in the installed dask/tifffile/numpy")
     run.add(cog.rule_flow16(prog), "R-FLOW16 tile sizes originate from adjust_blocksize/norm_blocksize whose returns are align_up(.,16)")
     run.add(cog.rule_order(prog), "R-ORDER the bag list handed to the multi-part writer is the reversed level list (overviews first)")
+    run.add([i for i in cog.rule_mpu(prog) if "STRIDE" in i.construct], "R-MPU STRIDE part-id ranges of chunks and sub-streams neither overlap nor leave gaps")
     run.add(cog.rule_swallow(prog), "R-SWALLOW (informational) encoder errors returned as empty tiles")
     run.add(_only(specific.rule_exhaust(prog), "cog."), "R-EXHAUST axis-order dispatch total over YX/YXS/SYX")
     run.add(axis.rule_axis(prog, {"cog._shared", "cog._tifffile"}), AXIS_DESC)
@@ -169,7 +170,7 @@ def C07(prog: Program, run: Run, tier: str) -> None:
 def C08(prog: Program, run: Run, tier: str) -> None:
     run.add(_only(rounding.rule_round(prog, {"math"}), "math:_snap", "math:snap_grid"), ROUND_DESC)
     run.add(_only(rounding.rule_clamps(prog), "math:"), None)
-    run.add(specific.rule_signrole(prog), "R-SIGNROLE edge chosen by the sign of the same-axis resolution; anchor offset removed before and restored after snapping")
+    run.add(specific.rule_signrole(prog) + extra.from_bbox_origin(prog), "R-SIGNROLE edge chosen by the sign of the same-axis resolution; anchor offset removed before and restored after snapping; resolution-driven grids take their origin from snap_grid on every path")
     run.add(_only(axis.rule_axis(prog, {"geobox", "math"}), "geobox:GeoBox.from_bbox", "geobox:GeoBox.from_geopolygon", "math:snap", "math:_snap", "geobox:_norm_anchor"), AXIS_DESC)
     run.add(_only(specific.rule_exhaust(prog), "geobox:"), "R-EXHAUST anchor literals total, EDGE->0, CENTER->0.5, tight->floating")
     run.add(_only(_fwd(prog, {"geobox", "overlap"}), "geobox:GeoBox.from_", "geobox:GeoBox.to_crs", "geobox:GeoBox.zoom_to", "geobox:GeoBoxBase.compute_zoom_to", "overlap:compute_output_geobox", "geobox:zoom_to"), FWD_DESC)
@@ -180,6 +181,7 @@ def C08(prog: Program, run: Run, tier: str) -> None:
 def C09(prog: Program, run: Run, tier: str) -> None:
     run.add(specific.rule_keys(prog), "R-KEYS writer/reader attribute and encoding key tables agree; SPATIAL_ATTRIBUTES covers reader keys; GDAL GeoTransform order; col/row pairing")
     run.add(specific.rule_sibling(prog), "R-SIBLING DataArray and Dataset reprojection both register the destination at their own level (coords from xr_coords(dst), attrs pruned, stale CRS coordinate dropped)")
+    run.add(extra.gcp_frames(prog), "R-FRAME GCP control points are converted between the control-point frame and the view frame in the right direction (gcps written to spatial_ref)")
     run.add(forward.rule_option_keys(prog), "R-FORWARD geobox options packed/extracted/accepted under the same names; kw split between geobox and warp options")
     run.add(axis.rule_axis(prog, {"_xr_interop"}), AXIS_DESC)
     run.add(_fwd(prog, {"_xr_interop"}), FWD_DESC)
